@@ -21,6 +21,13 @@ CHECKS = {
     ),
 }
 
+CHECKS["C11"] = (
+    "stateful / model-based property testing: exhaustive short histories over the cache-key classes + proptest-generated operation sequences (getters, clones) against a fresh-state reference model; real-thread stress runs; differential par_pure vs pure",
+    "Histories: all sequences of the 12 atomic getters (one per cache-key class and dual-number type) up to length 2 (quick) / 3 (thorough) are enumerated exhaustively on five fixed systems, and thousands of generated sequences of up to 50 operations over 66 getters and clone operations are run on fixed systems and on the whole model zoo; after every step the returned value must equal the value of that getter on a fresh state. Schedules: the same sequences are executed by 2-16 real threads on one shared state. par_pure is compared with pure over generated (record, T_min, npoints, chunksize, pool sizes). Exploration; interleavings are not enumerated (see note).",
+    "Thread schedules are reduced to histories by the single Mutex around lookup+compute (feos-core/src/state/residual_properties.rs); a lock-free cache would need a schedule-owning tool instead. Tolerance 1e-9 relative plus a measured conditioning allowance; states below f_eta = 0.02 are not used (A_res itself is only 1e-9 accurate there). par_pure vs pure: densities/pressures to 1e-8 (chunks restart without continuation), temperatures/order/pool-size independence to 1e-13.",
+    "DESIGN.md section 4, C11",
+)
+
 NOT_YET = {}
 
 def main():
